@@ -283,12 +283,12 @@ func runStress(c stressCase, sec *vh.Section) {
 
 func sectionStress(rng *vh.Rng) {
 	sec := res.Section("stress", "stress",
-		"thorough tier only (6 runs): 6 free-running writers (4 through their own RPC clients, 2 through partition.Service.Write), 40 batches each of 1..9 (a tenth: 40..99) events, two thirds to a shared partition, one third to a private one, MaxChunkSize {300, 700, 3000} so batches span roll-overs and interleave; 3 concurrent readers of the shared partition (must be duplicate-free, per-writer increasing, intact); after all writers finished and the flush was awaited a final full read of every partition through backend.Querier and RPC must contain, per writer, exactly its acknowledged sequence numbers in write order with intact payloads. non-trivial = every run")
+		"thorough tier only (4 runs): 6 free-running writers (4 through their own RPC clients, 2 through partition.Service.Write), 40 batches each of 1..9 (a tenth: 40..99) events, two thirds to a shared partition, one third to a private one, MaxChunkSize {300, 700, 3000} so batches span roll-overs and interleave; 3 concurrent readers of the shared partition (must be duplicate-free, per-writer increasing, intact); after all writers finished and the flush was awaited a final full read of every partition through backend.Querier and RPC must contain, per writer, exactly its acknowledged sequence numbers in write order with intact payloads. non-trivial = every run")
 	if !args.Thorough {
 		res.Done(sec)
 		return
 	}
-	for i := 0; i < 6; i++ {
+	for i := 0; i < 4; i++ {
 		runStress(stressCase{MaxChunk: []int{300, 700, 3000}[i%3], Writers: 6, Batches: 40, Seed: int64(rng.U64() >> 1)}, sec)
 	}
 	res.Done(sec)
